@@ -162,6 +162,9 @@ pub struct World {
     pub ropts: RenderOpts,
     /// manifest-like files written by the harness (name -> text)
     pub texts: BTreeMap<String, String>,
+    /// E2 only: steps whose command completed around the moment n2 gave up on a failed
+    /// build; whether n2 still recorded them cannot be known from outside
+    pub uncertain: BTreeSet<String>,
 }
 
 fn mtime_of(tick: u64) -> std::time::SystemTime {
@@ -195,6 +198,7 @@ impl World {
             st: ModelState::default(),
             ropts: RenderOpts::default(),
             texts: BTreeMap::new(),
+            uncertain: BTreeSet::new(),
         }
     }
 
